@@ -251,7 +251,9 @@ func (k *TGSReq) setPAData(tgt Ticket, sessionKey types.EncryptionKey) error {
 		Checksum:  cb,
 	}
 	// Create AP_REQ
-	apReq, err := NewAPReq(tgt, sessionKey, auth)
+	// The authenticator of the AP_REQ in PA-TGS-REQ is always encrypted with key usage 7, whatever ticket is
+	// presented (a TGT, or a service ticket that is being renewed).
+	apReq, err := newAPReq(tgt, sessionKey, auth, keyusage.TGS_REQ_PA_TGS_REQ_AP_REQ_AUTHENTICATOR)
 	if err != nil {
 		return krberror.Errorf(err, krberror.KRBMsgError, "error generating new AP_REQ")
 	}
